@@ -121,6 +121,8 @@ static void fill_buf(rng_t* r, const bufspec_t* b, void* p, size_t bytes) {
         break;
       }
       for (size_t i = 0; i < bytes / 8; i++) x[i] = (rng_unit(r) * 2 - 1) * (double)(1u << (b->fillarg & 31));
+      if (b->dynrange && (rng_u64(r) & 3) == 0)
+        for (size_t i = 0; i < bytes / 8; i++) x[i] = ldexp(x[i], (int)rng_range(r, -60, 60));  // real and imaginary parts of very different magnitude
       break;
     }
     case F_DBLINT: {
@@ -229,7 +231,37 @@ static void fill_buf(rng_t* r, const bufspec_t* b, void* p, size_t bytes) {
 }
 
 __thread int op_exec_repeat;
-static __thread uint64_t op_exec_data_salt;  // perturbs the data streams only (shapes and scalar parameters still derive from the seed alone)
+// data variant (shapes and scalar parameters still derive from the seed alone): 0 the seed's data; 1 other random data; 2 the seed's
+// data with the first two limbs (blocks of N words, or the two halves of the buffer) exchanged; 3 the seed's data with one word
+// exchanged between the first two limbs - the same multiset of values, the same sums, the same first words: what a checksum or a
+// few probed positions cannot tell apart
+static __thread uint64_t op_exec_data_salt;
+static void data_variant(const bufspec_t* b, void* base, zvec_t* zv, uint64_t N, uint64_t variant, uint64_t seed) {
+  if (variant < 2) return;
+  if (!(b->fill == F_I64 || b->fill == F_DBL || b->fill == F_DBLINT || b->fill == F_U64 || b->fill == F_U32A || b->fill == F_I32 || b->fill == F_RATIO)) return;
+  uint8_t *l0, *l1;  // (byte pointers: arrays of 32-bit words may be only 4-byte aligned)
+  uint64_t nw;
+  if (b->is_zvec) {
+    if (b->size < 2 || !b->n) return;
+    l0 = (uint8_t*)zvec_limb(zv, 0);
+    l1 = (uint8_t*)zvec_limb(zv, 1);
+    nw = b->n;
+  } else {
+    const uint64_t words = b->bytes / 8;
+    if (words < 2) return;
+    nw = (N && words >= 2 * N) ? N : words / 2;
+    l0 = base;
+    l1 = (uint8_t*)base + 8 * nw;
+  }
+  const uint64_t from = variant == 2 ? 0 : mix64(seed + 3) % nw, to = variant == 2 ? nw : from + 1;
+  for (uint64_t i = from; i < to; i++) {
+    uint64_t t0, t1;
+    memcpy(&t0, l0 + 8 * i, 8);
+    memcpy(&t1, l1 + 8 * i, 8);
+    memcpy(l0 + 8 * i, &t1, 8);
+    memcpy(l1 + 8 * i, &t0, 8);
+  }
+}
 void op_exec(const opdef_t* o, const env_t* env, uint64_t seed, int prefill, unsigned mis, unsigned monitors, opres_t* res) {
   memset(res, 0, sizeof *res);
   rng_t r;
@@ -253,12 +285,13 @@ void op_exec(const opdef_t* o, const env_t* env, uint64_t seed, int prefill, uns
     bufspec_t* b = &pl.b[i];
     const unsigned m8 = 8 * ((mis + 3u * (unsigned)i) % 8);
     rng_t rb;
-    rng_seed(&rb, (seed ^ 0xA5A5) + op_exec_data_salt * 0x9E3779B97F4A7C15ull, (uint64_t)i + 17);
+    rng_seed(&rb, (seed ^ 0xA5A5) + (op_exec_data_salt == 1) * 0x9E3779B97F4A7C15ull, (uint64_t)i + 17);
     if (b->is_zvec) {
       zvec_alloc(&z[i], b->n, b->size, b->sl, m8);
       p[i] = z[i].p;
       if (b->role == R_IN || b->role == R_INOUT || b->role == R_INTMP) {
         for (uint64_t l = 0; l < b->size; l++) fill_buf(&rb, b, zvec_limb(&z[i], l), b->n * 8);
+        data_variant(b, 0, &z[i], env->N, op_exec_data_salt, seed);
         // limbs of an in-place buffer beyond the input's size are output-only: what they held before the call must not matter
         if (b->live_limbs)
           for (uint64_t l = b->live_limbs - 1; l < b->size; l++) fill_pattern((uint8_t*)zvec_limb(&z[i], l), b->n * 8, prefill, 55 + l);
@@ -271,6 +304,7 @@ void op_exec(const opdef_t* o, const env_t* env, uint64_t seed, int prefill, uns
       p[i] = gb_alloc(&g[i], b->bytes, al, mm, 4096);
       if (b->role == R_IN || b->role == R_INOUT || b->role == R_INTMP) {
         fill_buf(&rb, b, p[i], b->bytes);
+        data_variant(b, p[i], 0, env->N, op_exec_data_salt, seed);
         if (b->live_bytes1 && b->live_bytes1 - 1 < b->bytes) fill_pattern((uint8_t*)p[i] + (b->live_bytes1 - 1), b->bytes - (b->live_bytes1 - 1), prefill, 66);
       } else gb_prefill(&g[i], prefill, 99 + (uint64_t)i);
     }
@@ -331,6 +365,8 @@ void op_exec(const opdef_t* o, const env_t* env, uint64_t seed, int prefill, uns
         memcpy(rep_save[i], p[i], b->bytes);
       }
     }
+  // sticky exception flags are legal thread state: one call in four starts with all of them pending (as after an unrelated 0/0 or overflow)
+  if (((seed >> 5) + (uint64_t)prefill) % 4 == 0) _mm_setcsr(_mm_getcsr() | 0x3Fu);
   const unsigned csr0 = _mm_getcsr();
   unsigned short cw0, cw1;
   __asm__ volatile("fnstcw %0" : "=m"(cw0));
@@ -449,17 +485,20 @@ void op_exec(const opdef_t* o, const env_t* env, uint64_t seed, int prefill, uns
   }
   if ((monitors & MON_RECONTENT) && !op_exec_data_salt && !(monitors & MON_SNAPSHOT)) {
     // other data in the same buffers at the same addresses
+    const uint64_t variant = 1 + (mix64(seed + 11) + (uint64_t)prefill) % 3;
     for (int i = 0; i < pl.nb; i++) {
       bufspec_t* b = &pl.b[i];
       if (b->role != R_IN && b->role != R_INOUT && b->role != R_INTMP) continue;
       rng_t rb;
-      rng_seed(&rb, (seed ^ 0xA5A5) + 1 * 0x9E3779B97F4A7C15ull, (uint64_t)i + 17);
+      rng_seed(&rb, (seed ^ 0xA5A5) + (variant == 1) * 0x9E3779B97F4A7C15ull, (uint64_t)i + 17);
       if (b->is_zvec) {
         for (uint64_t l = 0; l < b->size; l++) fill_buf(&rb, b, zvec_limb(&z[i], l), b->n * 8);
+        data_variant(b, 0, &z[i], env->N, variant, seed);
         if (b->live_limbs)
           for (uint64_t l = b->live_limbs - 1; l < b->size; l++) fill_pattern((uint8_t*)zvec_limb(&z[i], l), b->n * 8, prefill, 55 + l);
       } else {
         fill_buf(&rb, b, p[i], b->bytes);
+        data_variant(b, p[i], 0, env->N, variant, seed);
         if (b->live_bytes1 && b->live_bytes1 - 1 < b->bytes) fill_pattern((uint8_t*)p[i] + (b->live_bytes1 - 1), b->bytes - (b->live_bytes1 - 1), prefill, 66);
       }
     }
@@ -474,7 +513,7 @@ void op_exec(const opdef_t* o, const env_t* env, uint64_t seed, int prefill, uns
         h2 = hash_bytes(p[i], b->bytes, h2);
     }
     opres_t fr;
-    op_exec_data_salt = 1;
+    op_exec_data_salt = variant;
     const int sr = op_exec_repeat;
     op_exec_repeat = 0;
     op_exec(o, env, seed, (prefill + 1) & 3, mis + 1, 0, &fr);
@@ -482,7 +521,7 @@ void op_exec(const opdef_t* o, const env_t* env, uint64_t seed, int prefill, uns
     op_exec_data_salt = 0;
     if (!fr.skipped && fr.out_hash != h2) {
       res->rerun_differs = 1;
-      if (!res->msg[0]) snprintf(res->msg, sizeof res->msg, "a second call with OTHER data written into the same input buffers returns other bits than a fresh call on that data (the first call's data or result is remembered by address)");
+      if (!res->msg[0]) snprintf(res->msg, sizeof res->msg, "a second call with OTHER data in the same input buffers (%s) returns other bits than a fresh call on that data: the first call's data or result is remembered by address", variant == 1 ? "new random values" : (variant == 2 ? "the first two limbs exchanged" : "one word exchanged between two limbs"));
     }
   }
   for (int i = 0; i < pl.nb; i++) {
@@ -645,8 +684,8 @@ static void call_ip_r4_mul_a(const opplan_t* pl, void* const p[], const env_t* e
 static void call_ip_r4_mul_b(const opplan_t* pl, void* const p[], const env_t* e) { (void)pl; reim4_fftvec_mul(e->r4_mul, p[0], p[1], p[0]); }
 static void call_ip_r4_mul_ab(const opplan_t* pl, void* const p[], const env_t* e) { (void)pl; reim4_fftvec_mul(e->r4_mul, p[0], p[0], p[0]); }
 // both (read-only) inputs are the same vector, the output is another one: r = a*a, r += a*a
-static void plan_sq_out(opplan_t* pl, rng_t* r, const env_t* e) { (void)r; B_RAW(pl, R_OUT, F_NONE, 0, 2 * e->m * 8, 8); B_RAW(pl, R_IN, F_DBL, 4, 2 * e->m * 8, 8); }
-static void plan_sq_acc(opplan_t* pl, rng_t* r, const env_t* e) { (void)r; B_RAW(pl, R_INOUT, F_DBL, 4, 2 * e->m * 8, 8); B_RAW(pl, R_IN, F_DBL, 4, 2 * e->m * 8, 8); }
+static void plan_sq_out(opplan_t* pl, rng_t* r, const env_t* e) { (void)r; B_RAW(pl, R_OUT, F_NONE, 0, 2 * e->m * 8, 8); pl->b[B_RAW(pl, R_IN, F_DBL, 4, 2 * e->m * 8, 8)].dynrange = 1; }
+static void plan_sq_acc(opplan_t* pl, rng_t* r, const env_t* e) { (void)r; B_RAW(pl, R_INOUT, F_DBL, 4, 2 * e->m * 8, 8); pl->b[B_RAW(pl, R_IN, F_DBL, 4, 2 * e->m * 8, 8)].dynrange = 1; }
 static void plan_sq_out4(opplan_t* pl, rng_t* r, const env_t* e) { if (e->m < 4) { pl->skip = 1; return; } plan_sq_out(pl, r, e); }
 static void plan_sq_acc4(opplan_t* pl, rng_t* r, const env_t* e) { if (e->m < 4) { pl->skip = 1; return; } plan_sq_acc(pl, r, e); }
 static void plan_sq_acc8(opplan_t* pl, rng_t* r, const env_t* e) { if (e->m < 8) { pl->skip = 1; return; } plan_sq_acc(pl, r, e); }
@@ -835,8 +874,8 @@ TCALL(cplx_ifft, cplx_ifft(e->cplx_ifft, p[0]))
 static void plan_mul_d(opplan_t* pl, rng_t* r, const env_t* e) {
   (void)r;
   B_RAW(pl, R_OUT, F_NONE, 0, 2 * e->m * 8, 8);
-  B_RAW(pl, R_IN, F_DBL, 4, 2 * e->m * 8, 8);
-  B_RAW(pl, R_IN, F_DBL, 4, 2 * e->m * 8, 8);
+  pl->b[B_RAW(pl, R_IN, F_DBL, 4, 2 * e->m * 8, 8)].dynrange = 1;
+  pl->b[B_RAW(pl, R_IN, F_DBL, 4, 2 * e->m * 8, 8)].dynrange = 1;
 }
 static void plan_addmul_d(opplan_t* pl, rng_t* r, const env_t* e) {
   plan_mul_d(pl, r, e);
@@ -1950,6 +1989,22 @@ static uint64_t life_use(int kind, uint64_t N, void* obj, const char** why) {
       for (int k = 0; k < 4; k++) res[k] %= Q[k];
       h = hash_bytes(res, 32, h);
       free(x); free(y);
+      // the table itself (plain data: split position and reduction constants) - constructors are deterministic
+      h = hash_bytes(obj, kind == LK_BBC ? sizeof(q120_mat1col_product_bbc_precomp) : (kind == LK_BAA ? sizeof(q120_mat1col_product_baa_precomp) : sizeof(q120_mat1col_product_bbb_precomp)), h);
+      if (kind == LK_BAA) {
+        // worst case of the a*a accumulation: 1000 terms of maximal lanes, reference and AVX2 kernels
+        enum { L2 = 1000 };
+        uint64_t* xm = aligned_alloc(64, L2 * 32);
+        for (int i = 0; i < 4 * L2; i++) xm[i] = 0xFFFFFFFFu;
+        uint64_t r1[4], r2[4];
+        q120_vec_mat1col_product_baa_ref(obj, L2, (q120b*)r1, (q120a*)xm, (q120a*)xm);
+        q120_vec_mat1col_product_baa_avx2(obj, L2, (q120b*)r2, (q120a*)xm, (q120a*)xm);
+        for (int k = 0; k < 4; k++) {
+          const uint64_t want = (uint64_t)(((unsigned __int128)(0xFFFFFFFFull % Q[k]) * (0xFFFFFFFFull % Q[k]) % Q[k]) * L2 % Q[k]);
+          if (r1[k] % Q[k] != want || r2[k] % Q[k] != want) *why = "the a*a product of 1000 maximal terms through this table is not congruent to the exact sum";
+        }
+        free(xm);
+      }
       return h;
     }
     default: {
@@ -2147,4 +2202,32 @@ void ops_ring_history_case(int which, uint64_t N, int64_t pA, uint64_t N2, int64
   cnt("long_histories", 1);
   sample("A, B x255, A, B x65535, A (in place and out of place each): %" PRIu64 " calls agree", 2 * calls);
   case_end(1);
+}
+
+// ---------------------------------------------------------------- same buffers, other data
+// each named entry, `reps` argument sets: the call, then a second call on the SAME buffers after other data was written into the
+// inputs (new values / two limbs exchanged / one word moved between limbs), compared with a fresh call on that data
+void ops_recontent_case(const char* key, const char* const* names, int n, uint64_t N, int cfg, int reps, unsigned rep, const char* counter) {
+  char k[200];
+  snprintf(k, sizeof k, "%s|same buffers, other data%s%s", key, cfg == DISP_NATIVE ? "" : ",", cfg == DISP_NATIVE ? "" : disp_name[cfg]);
+  if (!case_begin(k, "N=%" PRIu64 " rep=%u", N, rep)) return;
+  env_t* e = env_create(N, cfg);
+  uint64_t calls = 0;
+  int nv = 0;
+  for (int i = 0; i < n; i++) {
+    const opdef_t* o = op_lookup(names[i]);
+    if (!o) harness_fail("ops_recontent_case: unknown entry %s", names[i]);
+    for (int s = 0; s < reps; s++) {
+      opres_t r;
+      op_exec(o, e, mix64(G.seed * 131 + rep * 1009 + (uint64_t)s * 7 + (uint64_t)i), s & 3, (unsigned)s, MON_CANARY | MON_RECONTENT, &r);
+      if (r.skipped) continue;
+      calls++;
+      if (r.rerun_differs && nv++ < 3) viol("history", "%s [N=%" PRIu64 " shape=%s, %s]: %s", o->name, N, r.shape, disp_name[cfg], r.msg);
+      if (r.canary_bad && nv++ < 3) viol("canary", "%s: %s", o->name, r.msg);
+    }
+  }
+  env_destroy(e);
+  cnt(counter, calls);
+  sample("%d entry points x %d argument sets: second call on the same buffers with other data equals a fresh call", n, reps);
+  case_end(calls > 0);
 }
